@@ -152,7 +152,7 @@ def abs_packet(p, visible=False):
     from bisturi.field import Em
     vals = []
     for name, f, _, _ in p.__class__.get_fields():
-        if isinstance(f, (Move, Em)):
+        if isinstance(f, (Move, Em)) or getattr(f, "embed", False):
             continue
         vis = f.descriptor_name if getattr(f, "descriptor_name", None) else name
         try:
